@@ -23,7 +23,7 @@ LOOK_TYPES = ["given", "when", "step"]          # = LookTypes of StepRegistry_MC
 NFUNCS = 8
 REC_MODULE = "_verif_c11_rec"
 PARSE_SPEC = {"any": "}", "int": ":d}", "word": ":w}", "float": ":f}", "custom": ":Colour}",
-              "many": ":Colour+}", "optional": ":SpColour?}", "many0": ":SpColour*}", "falsy": ":Falsy}"}
+              "many": ":Hue+}", "optional": ":SpColour?}", "many0": ":SpColour*}", "falsy": ":Falsy}"}
 FUSED = ("optional", "many0")          # cfparse cardinality fields that may take nothing; they own the blank before them
 FALSY = {"none": None, "zero": 0, "blank": "", "no": False, "nil": []}      # = FalsyVal of StepRegistry.tla
 COLOURS = "red|green|blue"
@@ -87,12 +87,22 @@ class Env(object):
         self.saved_types = dict(matchers.ParseMatcher.TYPE_REGISTRY)
         self.saved_path = list(sys.path)
         # recording step functions, one source line (= one location) each
-        src = "CALLS = []\n" + "".join(
-            "def f%d(context, *args, **kwargs): CALLS.append((%d, args, kwargs))\n" % (n, n) for n in range(1, NFUNCS + 1))
+        # and two shared functools.wraps decorators: a step function may be registered bare, as deco_a(f) or as
+        # deco_b(deco_a(f)); the wrapper closures of one decorator all share one source line
+        src = ("import functools\nCALLS = []\n"
+               "def deco_a(func):\n    @functools.wraps(func)\n    def wrapper(*args, **kwargs):\n        return func(*args, **kwargs)\n    return wrapper\n"
+               "def deco_b(func):\n    @functools.wraps(func)\n    def wrapper(*args, **kwargs):\n        return func(*args, **kwargs)\n    return wrapper\n"
+               + "".join("def f%d(context, *args, **kwargs): CALLS.append((%d, args, kwargs))\n" % (n, n) for n in range(1, NFUNCS + 1)))
         self.funcs_mod = types.ModuleType("c11_step_functions")
         exec(compile(src, os.path.join(self.tmp, "c11_step_functions.py"), "exec"), self.funcs_mod.__dict__)
-        self.funcs = {n: getattr(self.funcs_mod, "f%d" % n) for n in range(1, NFUNCS + 1)}
-        self.func_id = {id(f): n for n, f in self.funcs.items()}
+        fm = self.funcs_mod
+        self.funcs = {}
+        for n in range(1, NFUNCS + 1):
+            f = getattr(fm, "f%d" % n)
+            self.funcs[(n, 0)] = f
+            self.funcs[(n, 1)] = fm.deco_a(f)
+            self.funcs[(n, 2)] = fm.deco_b(fm.deco_a(f))
+        self.func_id = {id(f): n for (n, w), f in self.funcs.items()}
         self.calls = self.funcs_mod.CALLS
 
         @parse.with_pattern(r"red|green|blue")
@@ -106,7 +116,12 @@ class Env(object):
         def parse_falsy(text):
             v = FALSY[text]
             return list(v) if isinstance(v, list) else v            # a converter whose result is not truthy
-        self.types = {"Colour": parse_colour, "SpColour": parse_spcolour, "Falsy": parse_falsy}
+        @parse.with_pattern(r"red|green|blue|pink")
+        def parse_colour2(text):
+            return text.capitalize()
+        # Hue: the element type of the cardinality field {x:Hue+} (never re-registered: cfparse derives and keeps Hue+)
+        self.types = {"Colour": parse_colour, "Hue": parse_colour, "SpColour": parse_spcolour, "Falsy": parse_falsy}
+        self.retype = {"Colour": parse_colour2}            # the second converter registered under the same name
 
         class RunnerStub(object):
             config = Configuration(command_args=[], load_config=False)
@@ -142,10 +157,14 @@ def replay_history(env, acts, texts):
     decorators = {ty: registry.make_decorator(ty) for ty in ("given", "when", "then", "step")}
     observed = {}          # act index -> (res, exception name, matcher class name of the appended entry)
 
-    def reg(index, ty, text, func):
+    def retype():
+        behave.register_type(**env.retype)
+    env.rec.retype = retype
+
+    def reg(index, ty, text, func, wrap):
         before = list(registry.steps[ty])
         try:
-            decorators[ty](text)(env.funcs[func])
+            decorators[ty](text)(env.funcs[(func, wrap)])
         except AmbiguousStep:
             observed[index] = ("ambiguous", "AmbiguousStep", "")
             return
@@ -155,7 +174,7 @@ def replay_history(env, acts, texts):
         after = registry.steps[ty]
         if len(after) == len(before) and all(a is b for a, b in zip(after, before)):
             observed[index] = ("ignored", "", "")
-        elif len(after) == len(before) + 1 and all(a is b for a, b in zip(after, before)) and after[-1].func is env.funcs[func]:
+        elif len(after) == len(before) + 1 and all(a is b for a, b in zip(after, before)) and after[-1].func is env.funcs[(func, wrap)]:
             observed[index] = ("ok", "", getattr(type(after[-1]), "NAME", "") or "")
         else:
             observed[index] = ("exc", "list-changed-otherwise", "")
@@ -175,8 +194,10 @@ def replay_history(env, acts, texts):
             modules[-1].append("use_step_matcher(%r)" % a["kind"])
         elif a["a"] == "end":
             modules.append([])
+        elif a["a"] == "retype":
+            modules[-1].append("_R.retype()")
         elif a["a"] == "reg":
-            modules[-1].append("_R.reg(%d, %r, %r, %d)" % (index, a["ty"], j(a["text"]), a["func"]))
+            modules[-1].append("_R.reg(%d, %r, %r, %d, %d)" % (index, a["ty"], j(a["text"]), a["func"], a.get("wrap", 0)))
     for n, lines in enumerate(modules):
         with open(os.path.join(d, "m%02d_steps.py" % n), "w") as fh:
             fh.write("import sys\n_R = sys.modules[%r]\n" % REC_MODULE + "\n".join(lines) + "\n")
@@ -248,11 +269,14 @@ def describe(case_acts):
     out = []
     for a in case_acts:
         if a["a"] == "reg":
-            out.append("@%s(%r)->f%d [%s]" % (a["ty"], j(a["text"]), a["func"], a["kind"]))
+            out.append("@%s(%r)->%sf%d%s [%s]" % (a["ty"], j(a["text"]), ("", "deco_a(", "deco_b(deco_a(")[a.get("wrap", 0)],
+                                                 a["func"], ")" * a.get("wrap", 0), a["kind"]))
         elif a["a"] == "end":
             out.append("<module end>")
         elif a["a"] == "setdef":
             out.append("environment: use_step_matcher(%r)" % a["kind"])
+        elif a["a"] == "retype":
+            out.append("register_type(Colour=<second converter>)")
         else:
             out.append("use_step_matcher(%r)" % a["kind"])
     return "; ".join(out)
